@@ -51,6 +51,10 @@ pub struct Plan {
     pub limit: u64,
     pub opens: Vec<Open>,
     pub acceptors: Vec<Acceptor>,
+    /// datagrams the opener sends before (and between) its streams; nobody on the accepting side
+    /// calls receive_datagram - unread datagrams must not hold streams back
+    #[serde(default)]
+    pub unread_datagrams: usize,
 }
 
 pub fn gen_plan(seed: u64, faulty: bool, tier: Tier) -> Plan {
@@ -115,7 +119,8 @@ pub fn gen_plan(seed: u64, faulty: bool, tier: Tier) -> Plan {
             });
         }
     }
-    Plan { seed, rt, net, opener_is_client: rng.coin(), limit, opens, acceptors }
+    let unread_datagrams = if rng.chance_pm(250) { rng.usize(2, 6) } else { 0 };
+    Plan { seed, rt, net, opener_is_client: rng.coin(), limit, opens, acceptors, unread_datagrams }
 }
 
 fn tag_payload(i: usize, len: usize) -> Vec<u8> {
@@ -235,6 +240,12 @@ pub fn execute(plan: &Plan, trace: bool) -> Exec {
         for a in plan.acceptors.iter().cloned() {
             spawn_acceptor(acceptor.clone(), a, bag.clone(), cancels.clone(), stop.clone());
         }
+        for i in 0..plan.unread_datagrams {
+            let _ = opener.send_datagram(format!("unread-datagram-{i}").as_bytes());
+            if i % 2 == 1 {
+                tokio::time::sleep(Duration::from_millis(5)).await;
+            }
+        }
         let mut handles = Vec::new();
         for (i, o) in plan.opens.iter().cloned().enumerate() {
             let (opener, bag) = (opener.clone(), bag.clone());
@@ -302,6 +313,7 @@ pub fn execute(plan: &Plan, trace: bool) -> Exec {
     };
     ex.fault("app_calls_cancelled_and_reissued", cancels);
     ex.probe("streams_opened", bag.opened.len() as u64);
+    ex.fault("datagrams_left_unread", plan.unread_datagrams as u64);
     ex.nontrivial = !bag.opened.is_empty() && (!faulty || ex.net.faults_fired() > 0);
     let lost_conn = open_errors.iter().any(|e| e.contains("NotConnected") || e.contains("TimedOut")) || bag.read.iter().any(|(_, r)| matches!(r, Err(e) if e.contains("NotConnected")));
     if faulty && lost_conn {
@@ -419,7 +431,7 @@ pub fn def() -> PropertyDef {
     PropertyDef {
         id: "C08",
         scenarios: vec![Box::new(Typed(C08E2E { faulty: false })), Box::new(Typed(C08E2E { faulty: true }))],
-        rule: "Each run: real client and server with a concurrent-stream limit of 4/5/8/16; the opener (client or server) opens 1..2x (quick) / 1..3x (thorough) the limit streams (all uni, all bidi or mixed; in one burst or spread over 100 ms), each carrying a unique tag of 14..2000 bytes, and finishes them; the other side accepts with 1-4 tasks per kind, each with its own start time (in a fifth of the runs nobody accepts for the first 6-12 s), per-call delay (0..40 ms, up to 700 ms in those runs) and a cycle of deadlines (0 = polled exactly once, 1 us .. 30 ms, or none) after which the pending accept future is dropped and reissued; in a third of the runs all but one task per kind leave after 1-3 streams or at their first deadline (the task that polled last must not take the next wake-up with it). Oracle (bag model over the recorded history): every value returned by an accept call is a stream the peer opened, of the right kind, returned exactly once; every opened stream is returned within 120 s simulated; the bytes read from it are the tag it was opened with. Fault batch: loss / duplication / reordering (a connection killed by the faults is inconclusive). Probe: number of accept calls cancelled. Non-trivial = at least one stream opened (and a fault fired in the fault batch); distinct = distinct plan hashes.",
+        rule: "Each run: real client and server with a concurrent-stream limit of 4/5/8/16; the opener (client or server) opens 1..2x (quick) / 1..3x (thorough) the limit streams (all uni, all bidi or mixed; in one burst or spread over 100 ms), each carrying a unique tag of 14..2000 bytes, and finishes them; the other side accepts with 1-4 tasks per kind, each with its own start time (in a fifth of the runs nobody accepts for the first 6-12 s), per-call delay (0..40 ms, up to 700 ms in those runs) and a cycle of deadlines (0 = polled exactly once, 1 us .. 30 ms, or none) after which the pending accept future is dropped and reissued; in a third of the runs all but one task per kind leave after 1-3 streams or at their first deadline (the task that polled last must not take the next wake-up with it); in a quarter of the runs the opener first sends 2-6 datagrams that nobody reads. Oracle (bag model over the recorded history): every value returned by an accept call is a stream the peer opened, of the right kind, returned exactly once; every opened stream is returned within 120 s simulated; the bytes read from it are the tag it was opened with. Fault batch: loss / duplication / reordering (a connection killed by the faults is inconclusive). Probe: number of accept calls cancelled. Non-trivial = at least one stream opened (and a fault fired in the fault batch); distinct = distinct plan hashes.",
         assumptions: vec![
             "current-thread runtime only: parallel acceptors are modelled as interleavings at await points (the multi-thread half of the quantifier cannot be made replayable and is not claimed)",
             "quinn/rustls/tokio executed for real but trusted",
